@@ -77,6 +77,8 @@ func fedACLStep(rng *rand.Rand, g *Gen, local bool, ids *fedIDs) Step {
 	case 0:
 		id := n4()
 		s := Step{Op: "acl.policy.set", ID: PolicyUUID(ids.cur("p", id)), Name: fmt.Sprintf("pol%d", id), Text: g.pick(aclRules)}
+		// in the primary: a read-modify-write through the real endpoint (the client sends back what it read, hash included)
+		s.Flag2 = !local && simkit.Chance(rng, 30)
 		if simkit.Chance(rng, 12) {
 			s.Name = fmt.Sprintf("pol%d", n4()) // rename onto another policy's usual name
 		}
@@ -930,6 +932,11 @@ func (w *fedWorld) nameReuseBlocks(typ string) bool {
 func (C19) execute(p *Plan, r *simkit.Run) *simkit.Violation {
 	w := &fedWorld{r: r, loops: map[string]*fedLoop{}, steps: p.Steps}
 	w.P = NewCluster(r, parseDur(p.Cfg.GCTTL, 15*time.Minute), parseDur(p.Cfg.GCGran, 30*time.Second))
+	// the primary's leader resolves tokens: some policy updates go through its real ACL.PolicySet endpoint
+	if err := consul.VerifEnableACLs(w.P.Shell, consul.ACLResolverSettings{ACLsEnabled: true, Datacenter: "dc1", NodeName: "sim", ACLPolicyTTL: 30 * time.Second,
+		ACLTokenTTL: 30 * time.Second, ACLRoleTTL: 30 * time.Second, ACLDownPolicy: "extend-cache", ACLDefaultPolicy: "deny"}); err != nil {
+		panic(err)
+	}
 	defer w.P.Close()
 	w.S = NewClusterDC(r, parseDur(p.Cfg.GCTTL, 15*time.Minute), parseDur(p.Cfg.GCGran, 30*time.Second), consul.VerifShellConfig("dc2", "dc1"), w.rpc)
 	defer w.S.Close()
@@ -1004,7 +1011,9 @@ func (C19) execute(p *Plan, r *simkit.Run) *simkit.Violation {
 			}
 		default:
 			r.Sig(s.Op)
-			w.P.Do(s)
+			if !(s.Op == "acl.policy.set" && s.Flag2 && w.P.PolicyRMW(s)) {
+				w.P.Do(s)
+			}
 			if w.P.Fatal != nil {
 				return &simkit.Violation{Property: "C19", Class: "panic", Invariant: "apply-does-not-panic", Step: i, Culprit: s.Op, Detail: w.P.Fatal.Error()}
 			}
